@@ -9,7 +9,8 @@ let fmt_fail (fail : int option) (stack : string) (dlo : int option) (cs : call 
   | Some _ -> Printf.sprintf "calls=%s err=0 probes=- cmps=-" (fmt_calls cs)
   | None ->
       let probes = if dlo = None then 0 else i c.probes in
-      if stack = "none" then Printf.sprintf "calls=%s err=0 probes=%d cmps=%d" (fmt_calls cs) probes (i c.cmps)
+      if stack = "none" then
+        Printf.sprintf "calls=%s err=0 probes=%d cmps=%d post=%d" (fmt_calls cs) probes (i c.cmps) (i c.post_cmps)
       else Printf.sprintf "calls=%s err=0 probes=%d cmps=-" (fmt_calls cs) probes
 
 let case_raw h : string =
